@@ -27,7 +27,7 @@ func c33Fixed(t lib.TB, test string, c interface{}) *c33Runner {
 	f.reset()
 	c33HookLog()
 	v := f.newProto(3600 * 1000)
-	r := &c33Runner{t: t, test: test, c: c, f: f, v: v, w: c33NewWorld(f, 0, []int{2, 3, 4})}
+	r := &c33Runner{t: t, test: test, c: c, f: f, v: v, w: c33NewWorld(f, 0, []int{2, 3, 4}), rejects: map[string]int{}}
 	f.setChain(4)
 	v.handleAddBlock(&queue.Message{Data: &types.Block{Height: 4}})
 	return r
@@ -366,5 +366,17 @@ func TestC33WriteCorpus(t *testing.T) {
 	}
 	for _, k := range []string{"notsnappy", "snappyGarbage", "declaredHuge"} {
 		write("FuzzPubSubRaw", "raw-"+k, "uint8(3)", q(c33Raw(k, 7)))
+	}
+}
+
+// Fixed regression for the peer-denial bookkeeping: one publisher, one rejected block, a run of accepted ones, one more
+// rejected (all in flight before the feedback tick, and again with a tick after each), then the deny times run out.
+func TestRegress_C33DenyFeedback(t *testing.T) {
+	defer lib.Flush()
+	for _, each := range []bool{false, true} {
+		lib.Eval()
+		c33Run(t, "TestRegress_C33DenyFeedback", c33Case{GSizes: []int{2, 2, 2}, Steps: []c33Step{
+			{Op: "fb", From: 1, Verdicts: "raaaaar", Via: "resp", Each: each}, {Op: "sweep", Kind: "later"},
+			{Op: "fb", From: 1, Verdicts: "aaaariaar", Via: "block", Each: each}, {Op: "sweep", Kind: "now"}}})
 	}
 }
